@@ -446,6 +446,12 @@ add("v3000_star_bonds_share_dict_and_written", [(V3, "            bonds[t] = bon
     (V3, "    _validate_bond_indices(bond_attrs, atom_attrs)", "    _validate_bond_indices(bond_attrs, atom_attrs)\n    for bond, attrs in bond_attrs.items():\n        attrs[\"first_atom\"] = bond[0]")],
     fires={"R-ALIAS"}, note="the shared record is written to per bond: every expanded bond ends up with the last value")
 
+add("v3000_star_bonds_share_dict_by_comprehension", (V3, "        for t in bond_tuples:\n            bonds[t] = bond_attrs.copy()", "        bonds |= {t: bond_attrs for t in bond_tuples}"), silent=True,
+    note="as v3000_star_bonds_share_dict, written as a dictionary comprehension (found by a mutant of a modernised reader)")
+add("v3000_star_bonds_share_dict_by_comprehension_and_written", [(V3, "        for t in bond_tuples:\n            bonds[t] = bond_attrs.copy()", "        bonds |= {t: bond_attrs for t in bond_tuples}"),
+    (V3, "    _validate_bond_indices(bond_attrs, atom_attrs)", "    _validate_bond_indices(bond_attrs, atom_attrs)\n    for bond, attrs in bond_attrs.items():\n        attrs[\"first_atom\"] = bond[0]")],
+    fires={"R-ALIAS"})
+
 add("v3000_endpts_search_untested", (V3, """    if endpts_match is None:
         # silently ignore everything that has no ENDPTS (e.g. use of star atoms in polymers)
         return []
